@@ -177,6 +177,16 @@ Definition sanctioned_burn : list (string * Z * Z) :=
 Definition in_table (k : string) (m c : Z) (t : list (string * Z * Z)) : bool :=
   existsb (fun e => String.eqb (fst (fst e)) k && (snd (fst e) =? m) && (snd e =? c)) t.
 
+Definition kind_name (k : Z) : string :=
+  if k =? 1 then "staked" else if k =? 2 then "undelegation" else if k =? 3 then "reward" else if k =? 4 then "basket-reserve"
+  else if k =? 5 then "basket-surplus" else if k =? 6 then "spending-pool" else if k =? 7 then "tip" else if k =? 10 then "dapp-bond"
+  else if k =? 11 then "collective-bond" else if k =? 12 then "collective-donation" else if k =? 13 then "recovery-backing"
+  else if k =? 14 then "rr-reward" else "record".
+
+(* record classes the genesis does not carry at all (layer2 and collectives Init/ExportGenesis are empty: C12's known findings
+   lost:layer2/KeyPrefixDapp, lost:layer2/PrefixUserDappBondKey, lost:collectives/...): every other class must round-trip *)
+Definition not_exported_kinds : list Z := [10; 11; 12].
+
 Section Checker.
 Variable dclass : list (Z * Z).                 (* denom id -> class *)
 Variable shmap : list (Z * (Z * Z)).            (* share denom id -> (pool id, native denom id) *)
@@ -229,6 +239,14 @@ Definition step_clauses (prev next : ostate) (st : c04_step) : list string :=
       then (if match st_rec st, st_sl st, st_sup st with [], [], [] => true | _, _, _ => false end
                && forallb (fun e => let a := fst (fst e) in (a =? fst (fst (st_fee st))) || (a =? FC)) (st_bal st)
             then [] else ["rollback"])
+      else [])
+  (* genesis export / re-import in the middle of a history reproduces every balance, the supply and every module record *)
+  ++ (if String.eqb (st_kind st) "reimport"
+      then (match st_bal st with [] => [] | _ => ["reimport:balances-differ"] end)
+           ++ flat_map (fun e => match e with (m, k, _, _, _) =>
+                          if existsb (Z.eqb k) not_exported_kinds then []
+                          else ["reimport:records-differ:" +++ macc_name m +++ ":" +++ kind_name k] end) (st_rec st)
+           ++ (match st_sl st with [] => [] | _ => ["reimport:records-differ:multistaking:slashed"] end)
       else [])
   (* a reward credit never exceeds what was allocated *)
   ++ flat_map (fun e => if oliab next FC (fst e) - oliab prev FC (fst e) <=? snd e then []
